@@ -482,7 +482,9 @@ func (g *Gen) maybeParams(sizeClass int) string {
 
 var errorNames = []string{"a.b.E", "org.example.more.Failed", "E", "", ".", ".E", "a.", "a..E", "org.varlink.service.X",
 	"org.varlink.service.InvalidParameter", "org.varlink.service", "org.varlink.servicex.E", "org.varlink.service.X.Y",
-	"org.varlink.Service.X", "über.straße.Fehler", "a.b.c.d.e.f.G", "org.varlink.service.", "x.\u0000"}
+	"org.varlink.Service.X", "über.straße.Fehler", "a.b.c.d.e.f.G", "org.varlink.service.", "x.\u0000",
+	// an interface's own errors may be named like the standard ones
+	"a.b.InvalidParameter", "org.example.more.MethodNotFound", "x.InterfaceNotFound", "a.b.c.MethodNotImplemented", "InvalidParameter"}
 
 func (g *Gen) errorName() string {
 	if g.Pct(20) {
